@@ -664,6 +664,40 @@ def ob_native_switch_parabolic(seed):
     return Verdict(DISCHARGED, backend="native simulation vs fresh simulation", sub=n)
 
 
+def ob_accepted_params(which):
+    """a parameter value that the setter ACCEPTS (and, for alpha = 0, documents as forward Euler) must allow a step: the step returns finite fields."""
+    import numpy as np
+    import contextlib, io
+    from EasyFEA import Models, Simulations
+    from contracts import patches
+    pre, connect = patches.star_patch("TRI3")
+    mesh = patches.real_mesh("TRI3", [[float(v) for v in p_] for p_ in pre], connect)
+    co = np.asarray(mesh.coord)
+    fixed = np.where(np.isclose(co[:, 0], co[:, 0].min()))[0]
+    try:
+        with contextlib.redirect_stdout(io.StringIO()):
+            if which == "parabolic.alpha0":
+                sm = Simulations.Thermal(mesh, Models.Thermal(k=1.5, c=0.7))
+                sm.rho = 2.0
+                sm.add_dirichlet(fixed, [1.0], ["t"])
+                sm.Solver_Set_Parabolic_Algorithm(1e-4, alpha=0)
+            else:
+                sm = Simulations.Elastic(mesh, Models.Elastic.Isotropic(2, E=50.0, v=0.3))
+                sm.rho = 2.0
+                sm.add_dirichlet(fixed, [0, 0], ["x", "y"])
+                sm.Solver_Set_Hyperbolic_Algorithm(1e-4, beta=0.0, gamma=0.5)
+            u = np.asarray(sm.Solve())
+    except AssertionError as ex:
+        # a setter that rejects the value is a legitimate answer
+        return Verdict(DISCHARGED, backend="native run", detail=f"rejected by an assertion: {str(ex)[:80]}")
+    except Exception as ex:
+        raise Refuted(f"{which}: the value is accepted by the setter but the first step raises {type(ex).__name__}: {ex}", cex=dict(case=which), signature=f"accepted:{which}",
+                      replay=dict(confirmed=True, error=str(ex)[:200]))
+    if not np.isfinite(u).all():
+        raise Refuted(f"{which}: the value is accepted by the setter but the step returns non-finite values", cex=dict(case=which), signature=f"accepted:{which}", replay=dict(confirmed=True))
+    return Verdict(DISCHARGED, backend="native run")
+
+
 def build(tier: str, seed: int):
     F = tuple(f"{PATH}::{q}" for q in FN.values())
     obs = []
@@ -690,6 +724,9 @@ def build(tier: str, seed: int):
                   clause="a step after a change of time-scheme settings == the step of a fresh simulation from the same state", timeout=600))
     obs.append(Ob("C05.native.switch.parabolic", ob_native_switch_parabolic, (seed,), "X", (f"{PATH}::{FN['coefs']}", f"{PATH}::{FN['set_par']}"), bound="7 consecutive steps with changing dt / alpha on one 4-element patch",
                   clause="a parabolic step after a change of dt / alpha == the step of a fresh simulation from the same state", timeout=600))
+    for which in ("parabolic.alpha0", "newmark.beta0"):
+        obs.append(Ob(f"C05.accepted.{which}", ob_accepted_params, (which,), "X", (f"{PATH}::{FN['set_par']}", f"{PATH}::{FN['set_hyp']}"), bound="one 4-element patch, one step",
+                      clause="a parameter value the setter accepts allows a step (finite fields)", timeout=300))
     # canaries (engine soundness): wrong specs must be refuted
     obs.append(Ob("canary.newmark.update.swapped", ob_update, ("newmark", True), "P", expect=REFUTED))
     obs.append(Ob("canary.hht.eom.extra_term", ob_eom, ("hht", True), "P", expect=REFUTED))
